@@ -15,6 +15,7 @@
 
 // the NSTD_VERIF hooks of /repo (Atomic.hpp, ...) call this; sequential drivers have no scheduler: a no-op
 extern "C" void nstd_verif_point(int, const volatile void*) {}
+extern "C" void nstd_verif_pool_cfg(unsigned long*, unsigned long*, unsigned long*) {}   // thread pool keeps its defaults
 
 static FILE* g_out = 0;
 static char g_line[1 << 16];
